@@ -19,23 +19,46 @@ def gen(wd, regions, full, tag="f"):
     return [(p["region"], p["fault"]) for p in (json.loads(l) for l in open(out))], r
 
 
-def run_with_watchdog(v, vh, driver, args, wd, plans, timeout=1500):
+def run_with_watchdog(v, vh, driver, args, wd, plans, timeout=1500, stall=120):
+    """run a driver that writes the id of the plan in flight to a marker file.  Besides the overall timeout the run is
+    stopped when the marker has not changed for `stall` seconds: one plan takes milliseconds, so a plan that long in
+    flight is the library spinning or blocked (an observation about the code, reported as a violation)."""
+    import subprocess, time
     marker = os.path.join(wd, "progress")
-    rc = 0
-    err = ""
-    try:
-        rc, err = core.run_harness(vh, driver, args, timeout=timeout, env={"VH_PROGRESS": marker})
-    except core.ToolError:
-        for flag, drop in (("--trace", True), ("--blobs", False)):
-            if flag in args:
-                core.keep_complete_lines(args[args.index(flag) + 1], drop_last_run=drop)
-        cur = open(marker).read().strip() if os.path.exists(marker) else "?"
-        v.violation("hostile:hang", "the client did not return (watchdog) while processing plan %s" % cur, {"plan": [x for x in plans if x.get("id") == cur][:1]})
+    if os.path.exists(marker):
+        os.remove(marker)
+    env = dict(os.environ); env["VH_PROGRESS"] = marker
+    errf = open(os.path.join(wd, "driver.stderr"), "wb")
+    p = subprocess.Popen([vh, driver] + args, stdout=subprocess.DEVNULL, stderr=errf, env=env)
+    t0 = time.time(); last = ("", t0); why = None
+    while True:
+        try:
+            p.wait(timeout=2)
+            break
+        except subprocess.TimeoutExpired:
+            pass
+        cur = open(marker).read().strip() if os.path.exists(marker) else ""
+        now = time.time()
+        if cur != last[0]:
+            last = (cur, now)
+        if now - t0 > timeout:
+            why = "no return within %d s" % timeout
+        elif cur and now - last[1] > stall:
+            why = "plan %s in flight for more than %d s" % (cur, stall)
+        if why:
+            p.kill(); p.wait()
+            break
+    errf.close()
+    err = open(os.path.join(wd, "driver.stderr"), errors="replace").read()
+    rc = p.returncode
+    if why is None and rc == 0:
         return
-    if rc != 0:
-        # the files may end in the middle of a line: keep what is complete, without the run that was in flight
-        for flag, drop in (("--trace", True), ("--blobs", False)):
-            if flag in args:
-                core.keep_complete_lines(args[args.index(flag) + 1], drop_last_run=drop)
-        cur = open(marker).read().strip() if os.path.exists(marker) else "?"
+    # the files may end in the middle of a line: keep what is complete, without the run that was in flight
+    for flag, drop in (("--trace", True), ("--blobs", False)):
+        if flag in args:
+            core.keep_complete_lines(args[args.index(flag) + 1], drop_last_run=drop)
+    cur = open(marker).read().strip() if os.path.exists(marker) else "?"
+    if why:
+        v.violation("hostile:hang", "the client did not return (watchdog: %s) while processing plan %s" % (why, cur), {"plan": [x for x in plans if x.get("id") == cur][:1]})
+    else:
         v.violation("hostile:abort", "the driver process died (rc %s: abort / stack overflow / refused allocation) while processing plan %s: %s" % (rc, cur, err[-300:]), {"plan": [x for x in plans if x.get("id") == cur][:1]})
